@@ -12,6 +12,7 @@ import numpy as np
 
 from fsmc import bases, tissue as T, fsutil, solvecase as SC
 from fsmc.ref import tangent as RT
+from fsmc.explorer import ListSystem
 
 PID = "C10"
 RULE = ("states = reachable object graphs of a ForSys under op histories (BFS, de-duplicated on a hash of all instance dictionaries); "
@@ -22,7 +23,7 @@ ASSUMPTIONS = ["what matters for the tensions of frame t: the last successful bu
                "what matters for the pressures of frame t: the tensions present when the pressure matrix was last built, and the last solve_pressure",
                "interfaces excluded by an angle limit are only compared through the -1 reported for them",
                "cm=False (centre-of-mass shifting edits the frame data itself)"]
-REQUIRED_TAGS = {"all": ["solved", "pressure_solved", "excluded_some", "resolved_other_options", "two_frames", "velocity", "sysvel", "data_edited"]}
+REQUIRED_TAGS = {"all": ["solved", "pressure_solved", "excluded_some", "resolved_other_options", "two_frames", "velocity", "sysvel", "data_edited", "defaults_spelled_out"]}
 
 BUILDS = {"bdef": {}, "btau": {"circle_fit_method": "taubinSVD"}, "bang": "ANGLE"}
 SOLVES = {"sdef": {}, "slsq": {"method": "lsq"}, "slin": {"method": "lsq_linear"}, "svel": {"b_matrix": "velocity"}, "sfix": {"method": "fix_stress"},
@@ -331,16 +332,95 @@ def ops_for(nframes, builds, solves, sysvel=True):
     return ops
 
 
+# ---------------------------------------------------------------- arguments spelled out with their default values
+SPELLED = {
+    "forsys": None,
+    "build": {"term": "none", "metadata": {}, "angle_limit": math.pi, "circle_fit_method": "dlite"},
+    "solve": {"method": None, "allow_negatives": True, "use_std": False, "verbose": False, "b_matrix": None, "adimensional_velocity": False,
+              "velocity_normalization": 1, "nnls_max_iter": None},
+    "solve_lsq": {"method": "lsq", "use_std": False, "allow_negatives": True, "verbose": False},
+    "solve_lsq_x0": {"method": "lsq", "initial_condition": "ONES"},
+    "solve_lin": {"method": "lsq_linear", "allow_negatives": True, "b_matrix": None},
+    "solve_velocity": {"b_matrix": "velocity", "adimensional_velocity": False, "velocity_normalization": 1, "method": None, "allow_negatives": True},
+    "solve_adim": {"b_matrix": "velocity", "adimensional_velocity": True, "method": None, "use_std": False},
+    "pressure": {"method": "lagrange_pressure", "allow_negatives": True, "nnls_max_iter": None},
+}
+OMITTED = {"build": {}, "solve": {}, "solve_lsq": {"method": "lsq"}, "solve_lsq_x0": {"method": "lsq"}, "solve_lin": {"method": "lsq_linear"},
+           "solve_velocity": {"b_matrix": "velocity"}, "solve_adim": {"b_matrix": "velocity", "adimensional_velocity": True},
+           "pressure": {"method": "lagrange_pressure"}}
+
+
+def eval_spelled(d):
+    """the same call with its optional arguments omitted and with every one of them given its documented default value: the
+    'last call's arguments' are the same, so the results must be identical"""
+    import forsys as fs
+    what, noisy, t = d["what"], d["noisy"], d["frame"]
+    nframes = 2
+    at, cm, spec = series_spec("v5x5", d["cells"], nframes)
+    if noisy:
+        spec = [dict(sp, post=(SC.noise_post(0.03, 5) if i == 0 else (lambda j, p, a=SC.noise_post(0.03, 5), b=sp["post"]: b(*a(j, p))))) for i, sp in enumerate(spec)]
+    out = []
+    for spelled in (False, True):
+        if what == "forsys" and spelled:
+            with fsutil.quiet():
+                frames = {}
+                for i, sp in enumerate(spec):
+                    v, e, c, info = T.realise(sp["at"], k=sp["k"], cmap=sp["cmap"], post=sp["post"])
+                    frames[i] = T.frame_of(v, e, c, fid=i, time=sp["time"])
+                s, ex = fsutil.call(fs.ForSys, frames, cm=False, initial_guess=[])
+            del frames, v, e, c, info
+        else:
+            s, infos, ex = SC.build_series(spec, cm=False)
+        if ex is not None:
+            out.append({"exc": fsutil.exc_str(ex)})
+            continue
+        kw = lambda key: dict((SPELLED if spelled and what == key else OMITTED)[key])
+        bkw = kw("build")
+        _, ex = fsutil.call(s.build_force_matrix, when=t, **bkw)
+        skey = what if what.startswith("solve") else "solve"
+        skw = kw(skey)
+        if skw.get("initial_condition") == "ONES":
+            skw["initial_condition"] = np.ones(len(s.frames[t].internal_big_edges))
+        if ex is None:
+            _, ex = fsutil.call(s.solve_stress, when=t, **skw)
+        if ex is None:
+            _, ex = fsutil.call(s.build_pressure_matrix, when=t)
+        if ex is None:
+            _, ex = fsutil.call(s.solve_pressure, when=t, **kw("pressure"))
+        if ex is not None:
+            out.append({"exc": fsutil.exc_str(ex)})
+            continue
+        out.append({"exc": None, "forces": [float(s.forces[t][i]) for i in range(len(s.forces[t]))],
+                    "pressures": [float(c.pressure) for c in s.frames[t].cells.values()],
+                    "tensions": [float(be.tension) for be in s.frames[t].internal_big_edges]})
+    a, b = out
+    viol = []
+    tags = ["defaults_spelled_out", "spelled:" + what]
+    if a["exc"] != b["exc"]:
+        viol.append({"what": "a call raises with its optional arguments spelled out at their default values and not without them (or vice versa)",
+                     "detail": {"call": what, "omitted": a["exc"], "spelled": b["exc"]}})
+    elif a["exc"] is None:
+        for key in ("forces", "tensions", "pressures"):
+            dmax = max([abs(x - y) for x, y in zip(a[key], b[key])] or [0.0])
+            if len(a[key]) != len(b[key]) or dmax > 1e-9:
+                viol.append({"what": "results differ between a call with optional arguments omitted and the same call with them spelled out at their default values",
+                             "detail": {"call": what, "quantity": key, "max_diff": dmax, "arguments": {k: str(v) for k, v in (SPELLED[what] or {"cm": False, "initial_guess": []}).items()}}})
+                break
+    return {"viol": viol, "tags": tags, "cls": "%s/%s/%s" % (what, noisy, t), "nontrivial": a["exc"] is None}
+
+
 def build(tier, seed):
     cells = first_connected("v5x5", 7)
+    spelled = ListSystem("defaults-spelled-out", [{"what": w, "noisy": nz, "frame": t, "cells": cells if tier == "quick" or big == 0 else None}
+                                                  for w in SPELLED for nz in (False, True) for t in (0, 1) for big in ((0,) if tier == "quick" else (0, 1))], eval_spelled)
     if tier == "quick":
         r1 = [[["bang", 0], ["sdef", 0], ["pbuild", 0], ["psolve", 0]], [["bdef", 0], ["sdef", 0], ["bang", 0], ["sdef", 0], ["pbuild", 0]]]
         r2 = [[["bdef", 0], ["sdef", 0], ["bdef", 1], ["svel", 1]]]
         return [Histories("one-frame", "v5x5", cells, 1, ops_for(1, ["bdef", "btau", "bang"], ["sdef", "slsq", "slin", "sfix"]), 3, r1),
                 Histories("two-frames", "v5x5", cells, 2, ops_for(2, ["bdef", "bang"], ["sdef", "svel"]), 3),
-                Histories("two-frames-from-solved", "v5x5", cells, 2, ops_for(2, ["bdef", "bang"], ["sdef", "svel", "sfix"]), 2, r2)]
+                Histories("two-frames-from-solved", "v5x5", cells, 2, ops_for(2, ["bdef", "bang"], ["sdef", "svel", "sfix"]), 2, r2), spelled]
     r1 = [[["bdef", 0], ["sdef", 0]], [["bang", 0], ["sdef", 0], ["pbuild", 0], ["psolve", 0]]]
     r2 = [[["bdef", 0], ["sdef", 0], ["bdef", 1], ["svel", 1]]]
     return [Histories("one-frame", "v5x5", cells, 1, ops_for(1, ["bdef", "btau", "bang"], ["sdef", "slsq", "slin", "sfix", "sneg"]), 4, r1),
             Histories("two-frames", "v5x5", cells, 2, ops_for(2, ["bdef", "bang", "btau"], ["sdef", "svel", "sfix", "slin"]), 3, r2),
-            Histories("three-frames", "v5x5", cells, 3, ops_for(3, ["bdef", "bang"], ["sdef", "svel"]), 2, r2)]
+            Histories("three-frames", "v5x5", cells, 3, ops_for(3, ["bdef", "bang"], ["sdef", "svel"]), 2, r2), spelled]
